@@ -618,3 +618,45 @@ func (r *Run) nonNilResult(f *ssa.Function) bool {
 	}
 	return n > 0
 }
+
+// matchTermVia matches pat against t or against a term that the facts equate
+// with t (e.g. the result of a helper whose summary names the returned value).
+func matchTermVia(at core.FactSet, pat string, t *core.Term, b core.Bind) bool {
+	if core.MatchTerm(pat, t, b) {
+		return true
+	}
+	ts := t.String()
+	for _, fc := range at {
+		if fc.Kind != "cmp" || fc.Op != "==" {
+			continue
+		}
+		switch {
+		case fc.A.String() == ts && core.MatchTerm(pat, fc.B, b):
+			return true
+		case fc.B.String() == ts && core.MatchTerm(pat, fc.A, b):
+			return true
+		}
+	}
+	return false
+}
+
+// equalTerms returns t and the terms the facts equate with it.
+func equalTerms(at core.FactSet, t *core.Term) []*core.Term {
+	if t == nil {
+		return nil
+	}
+	out := []*core.Term{t}
+	ts := t.String()
+	for _, fc := range at {
+		if fc.Kind != "cmp" || fc.Op != "==" {
+			continue
+		}
+		switch {
+		case fc.A.String() == ts:
+			out = append(out, fc.B)
+		case fc.B.String() == ts:
+			out = append(out, fc.A)
+		}
+	}
+	return out
+}
